@@ -332,3 +332,47 @@ def _bounded_html_attrs(tier, repo):
 REG.bounded_check("bounded#html_attrs_tag_emits_exactly_the_merged_attributes", P, _bounded_html_attrs,
                   note="HtmlAttrsNode.render / resolve_params and the tag plumbing are not under contract as a whole: 3072 {% html_attrs %} tags (attrs / defaults dicts, plain, repeated and special-character kwargs; plain, special, SafeString, True, False, None values) are rendered for real, the output is parsed by html.parser and compared with the property; inputs inside the region of F-C13a (appending to a non-str value) only have to fail with that TypeError")
 
+
+
+# ================================================================================================ HtmlAttrsNode.render
+# Frame contract only (the functional statement of the whole tag is the bounded stand-in below): `attrs` and `defaults` are the
+# CALLER's dicts (the same object may be handed to the next tag, the next loop iteration, the next request) - the engine marks
+# container parameters as caller-owned, so merging INTO one of them is the obligation frame#foreign_object_mutated_through_<var>;
+# **kwargs is a fresh dict per call.  No exception of its own (the TypeError of append_attributes is the known finding F-C13a).
+OATTRS = Opt(ATTRS)
+
+
+def _attrs_items(run, d, args, kwargs, node):
+    """dict.items() of an attribute dict as a sequence of AttrPair records (the element type of append_attributes' *args):
+    one pair per key, in insertion order"""
+    from pyvc.types import Conc
+    t = d.t
+    r = z3.FreshConst(PAIRS.sort(), "items")
+    i = z3.FreshConst(I, "ii")
+    order = ATTRS.order(t)
+    run.assume(z3.Length(r) == z3.Length(order))
+    run.assume(z3.ForAll([i], z3.Implies(z3.And(0 <= i, i < z3.Length(r)), r[i] == PAIR.mk(order[i], z3.Select(ATTRS.val(t), order[i])))))
+    return Conc(("seqview", Val(PAIRS, r))), None
+
+
+REG.stub(("method2", ATTRS.name, "items"), _attrs_items)
+REG.contract(
+    f"{MOD}:HtmlAttrsNode.render", prop=P, types={"self": Obj("HtmlAttrsNode"), "context": Obj("Context"), "attrs": OATTRS, "defaults": OATTRS, "kwargs": ATTRS},
+    result=Str, locals={"final_attrs": ATTRS},
+    modifies=[], raises={"TypeError": None},
+    ensures={},
+)
+
+
+@REG.replay(f"{MOD}:HtmlAttrsNode.render")
+def _replay_html_attrs_render(model, ob):
+    """a few real {% html_attrs %} tags with attrs / defaults dicts: output parsed back, dicts compared with their state before"""
+    from harness.bounded_html_attrs import worker
+    from pyvc.repo import REPO
+    cases = [(a, d, e) for a in (None, [("class", "plain")], [("data-x", "special"), ("class", "safe")]) for d in (None, [("class", "special")], [("data-x", "plain")])
+             for e in ([], [("class", "plain")])]
+    r = worker((REPO, cases))
+    if r["fails"]:
+        f = r["fails"][0]
+        return {"confirmed": True, "function": "HtmlAttrsNode.render (through a real {% html_attrs %} tag)", "inputs": f["input"], "expected": f["expected"], "observed": f["observed"], "clause": f["clause"]}
+    return {"confirmed": False}
